@@ -274,3 +274,54 @@ func H08c_capped_grant() {
 	vrtAssert("C08.retained_payload_intact", vrtBytesEq(r.Payload, []byte("v")))
 	vrtReach("C08.capped_grant")
 }
+
+// H08d_inprocess_retained_publish: a retained message published through the
+// in-process API: an already existing network subscription is forwarded the
+// message with RETAIN 0, a later subscription receives it with RETAIN 1,
+// min(stored, granted) and the payload intact - also when the same payload is
+// re-published with another QoS (the stored QoS is the latest one).
+func H08d_inprocess_retained_publish() {
+	b := vrtBroker("mockSuccess")
+	e, _ := b.connect(vrtConnectPkt([]byte("e"), true))
+	qe := vrtByte("qe")
+	vrtAssume(qe <= 2)
+	vrtExchange(e, &specPkt{Typ: specSUBSCRIBE, ID: 1, Topics: [][]byte{[]byte("r")}, QoS: []byte{qe}})
+	e.peerTake()
+	q1, q2 := vrtByte("q1"), vrtByte("q2")
+	vrtAssume(vrtAnd(q1 <= 2, q2 <= 2))
+	pub := func(q byte) {
+		m := message.NewPublishMessage()
+		m.SetTopic([]byte("r"))
+		m.SetPayload([]byte("v"))
+		m.SetQoS(q)
+		m.SetRetain(true)
+		vrtAssert("C08.inprocess_publish_ok", b.svr.Publish(m) == nil)
+		vrtQuiesce()
+		got, ok := vrtParse(e.peerTake())
+		vrtAssert("C08.stream_wellformed", ok)
+		vrtAssert("C08.existing_subscriber_forwarded_once", len(got) == 1)
+		if len(got) == 1 {
+			vrtAssert("C08.forwarded_without_retain_flag", vrtAnd(got[0].Typ == specPUBLISH, got[0].Flags&1 == 0))
+			vrtAssert("C08.forwarded_qos", (got[0].Flags>>1)&3 == specMinQos(q, qe))
+		}
+	}
+	pub(q1)
+	second := vrtBool("republished_with_other_qos")
+	stored := q1
+	if second {
+		pub(q2)
+		stored = q2
+	}
+	late, _ := b.connect(vrtConnectPkt([]byte("late"), true))
+	ql := vrtByte("ql")
+	vrtAssume(ql <= 2)
+	ans, ok := vrtParse(vrtExchange(late, &specPkt{Typ: specSUBSCRIBE, ID: 1, Topics: [][]byte{[]byte("r")}, QoS: []byte{ql}}))
+	vrtAssert("C08.stream_wellformed", ok && len(ans) == 2)
+	if ok && len(ans) == 2 {
+		r := ans[1]
+		vrtAssert("C08.retained_delivered_once", vrtAnd(r.Typ == specPUBLISH, r.Flags&1 == 1))
+		vrtAssert("C08.retained_qos_downgraded", (r.Flags>>1)&3 == specMinQos(stored, ql))
+		vrtAssert("C08.retained_payload_intact", vrtBytesEq(r.Payload, []byte("v")))
+	}
+	vrtReach("C08.inprocess_retained_publish")
+}
